@@ -438,6 +438,16 @@ impl Writer {
         for fault in faults {
             let (file, tr) = match self.execute(prop, self.plan_with(Some(fault.clone())), expected.len(), &mut out.stats) { Ok(x) => x, Err(mut viol) => { viol.message = format!("[fault {:?}] {}", fault, viol.message); return out.fail(viol) } };
             let file = file.unwrap_or_default();
+            // A limit that persists (full disk, size limit, every write failing) cannot be outlasted by asking again:
+            // no close() may return Ok unless the file is complete at that moment, whatever was reported earlier.
+            let persistent = matches!(fault, FsFault::Full(..) | FsFault::WriteFrom(..));
+            if persistent && tr.closed_ok {
+                let snap = tr.first_close_snapshot.clone().unwrap_or_default();
+                if snap != expected {
+                    return out.fail(v("writer-close-ok-incomplete", format!("[fault {:?}] close() returned Ok (after: {}) although the file has {} bytes and differs from the expected {} bytes", fault, if tr.reported.is_empty() { "no earlier failure".to_string() } else { tr.reported.join("; ") }, snap.len(), expected.len())));
+                }
+            }
+            out.stats.probe_if(persistent && !tr.reported.is_empty() && tr.closes >= 2, "close() asked again after a reported failure");
             if tr.reported.is_empty() && file != expected {
                 let clause = match fault { FsFault::Full(..) => "writer-full-silent", FsFault::Open(..) => "writer-open-silent", FsFault::Seek(..) => "writer-seek-silent", _ => "writer-write-silent" };
                 return out.fail(v(clause, format!("[fault {:?}] every call reported success (closes {}), but the file has {} bytes and differs from the expected {} bytes", fault, tr.closes, file.len(), expected.len())));
